@@ -14,6 +14,7 @@ package main
 //                  ethcall-value-precompile-query (eth_call with value into a precompile query method)
 
 import (
+	"bytes"
 	"encoding/json"
 	"fmt"
 	"math/big"
@@ -270,6 +271,21 @@ func runInterleave(r *hx.R, n int, w *hx.W, _ []string) error {
 	for i := len(combos) - 1; i > 0; i-- { // shuffled by the run's seed
 		j := r.Pick(i + 1)
 		combos[i], combos[j] = combos[j], combos[i]
+	}
+	// probe: the deploy input of a from-coin CreateFunToken is `append(<embedded bytecode>, constructorArgs...)`. Two executions
+	// (the block's tx and a simulation on another goroutine) build theirs from the same package-level slice: if that slice has spare
+	// capacity both write their arguments into ONE backing array, and whichever appends second changes what the other deploys.
+	{
+		bc := embeds.SmartContract_ERC20MinterWithMetadataUpdates.Bytecode
+		argsBlock := bytes.Repeat([]byte{0xB1}, 96)
+		argsSim := bytes.Repeat([]byte{0x51}, 96)
+		inBlock := append(bc, argsBlock...)
+		_ = append(bc, argsSim...)
+		obs := "same private-deploy-input"
+		if !bytes.Equal(inBlock[len(bc):], argsBlock) {
+			obs = "DIFFERS deploy-input-of-the-block-tx-rewritten-by-another-execution"
+		}
+		w.Step("interleave probe yield=between-input-and-create q=simulate-createft-coin", obs)
 	}
 	for c := 0; c < n; c++ {
 		y := yields[r.Pick(len(yields))]
